@@ -206,7 +206,12 @@ type streamScenario struct {
 	ShutAt    int     `json:"shut_at"` // local shutdown by the harness after this many deliveries; -1 = never
 	Family    string  `json:"family,omitempty"`
 	Devs      bool    `json:"deviation_bound,omitempty"` // Bound counts departures from the default policy instead of preemptions
-	OutSizes  []int   `json:"out_sizes,omitempty"`
+	// Reuse: a producer builds one object per message kind and submits that same object every time
+	// the kind recurs in its body (a keep-alive built once). AsBuffer: the objects are *util.Buffer
+	// values holding the pre-encoded bytes (the stream accepts any util.Message).
+	Reuse    bool  `json:"reuse_objects,omitempty"`
+	AsBuffer bool  `json:"as_buffer,omitempty"`
+	OutSizes []int `json:"out_sizes,omitempty"`
 	OutKinds  []int   `json:"out_kinds,omitempty"` // outbound kind sweep: indices into the list of all encodable message kinds // outbound size sweep: total sizes of packet-outs submitted by one producer
 }
 
@@ -263,7 +268,11 @@ func newStreamExplorer(sc streamScenario, alphabet []streamFrame, outAlphabet []
 		run.stream = append(run.stream, f...)
 	}
 	e := &verifrt.Explorer{Bound: sc.Bound, MaxSteps: 20000, Deadline: deadline, Symmetric: true, Deviations: sc.Devs}
-	if sc.Policy != "" {
+	if sc.Policy == "slow-peer" {
+		// whoever is about to write to the connection runs only when nobody else can: submissions
+		// back up behind the writer as far as the stream lets them
+		e.LateSite = func(site string) bool { return site == "conn.Write" }
+	} else if sc.Policy != "" {
 		e.Prio = policyPrio(sc.Policy)
 	}
 	verifrt.Digest = streamDigest
@@ -330,7 +339,17 @@ func newStreamExplorer(sc streamScenario, alphabet []streamFrame, outAlphabet []
 		for pi, kinds := range sc.Producers {
 			pi, kinds := pi, kinds
 			verifrt.GoNamed(fmt.Sprintf("producer%d", pi), func() {
+				built := map[int]util.Message{}
 				for k, kind := range kinds {
+					if prev, ok := built[kind]; ok && sc.Reuse {
+						eb, err := prev.MarshalBinary()
+						if err != nil {
+							panic("harness: outbound message cannot be encoded")
+						}
+						run.submitted[pi] = append(run.submitted[pi], append([]byte{}, eb...))
+						verifrt.Send(ms.Outbound, prev)
+						continue
+					}
 					m, err := bind.BuildMsg(outAlphabet[kind], bind.Hist{})
 					if err != nil || m == nil {
 						// kinds without constructors: the value the parser makes of the reference encoding
@@ -349,6 +368,10 @@ func newStreamExplorer(sc streamScenario, alphabet []streamFrame, outAlphabet []
 					}
 					b := append([]byte{}, eb...)
 					run.submitted[pi] = append(run.submitted[pi], b)
+					if sc.AsBuffer {
+						m = util.NewBuffer(append([]byte{}, eb...))
+					}
+					built[kind] = m
 					verifrt.Send(ms.Outbound, m)
 				}
 				run.prodDone++
